@@ -27,7 +27,11 @@ RULE = ("a runner configuration = 0-3 unpacked parameters of lengths 1-5 (lists 
         "up by random fixed-value subsets; every runner is simulated twice, and "
         "single-variation mode is run against a scratch folder.  Signature = "
         "(#unpacked, grid shape, rep_max, predicate kind, skip kind, mode); "
-        "non-trivial = at least two _run_simulation calls.")
+        "non-trivial = at least two _run_simulation calls.  Half of the runners "
+        "are reconfigured between simulate() calls.  In situ: the repository's "
+        "own AWGN simulator class (apps/awgn_modulators) runs unmodified with six "
+        "modulators; its two extension points are wrapped to record events and "
+        "an offline checker requires the documented loop and exact stored sums.")
 ASSUMPTIONS = ["the do-while behaviour (first repetition unconditional) is the "
                "documented one", "serial simulate() only (ipyparallel absent)"]
 
